@@ -44,7 +44,20 @@ class WireHooks:
         st.natoms += 1
         return st.natoms - 1
 
+    opaque_results = False     # error-discipline rules: a stream primitive may fail, its Result is not known to be Ok
+
     def call(self, ip, frame, st, e, callee, dj, targs, resolved, rargs, args):
+        r = self._call(ip, frame, st, e, callee, dj, targs, resolved, rargs, args)
+        if r is None or not self.opaque_results:
+            return r
+        out = []
+        for (s2, v) in r:
+            if isinstance(v, tuple) and len(v) == 4 and v[0] == "adt" and v[1] == RESULT and v[2] == 0:
+                v = ("call", dj.get("name"), (dict(v[3]).get(0),), ("stream-primitive", callee))
+            out.append((s2, v))
+        return out
+
+    def _call(self, ip, frame, st, e, callee, dj, targs, resolved, rargs, args):
         if dj["krate"] not in ("epserde", "core"):
             return None
         sp = frame.crate.span(e["sp"])
@@ -74,6 +87,12 @@ class WireHooks:
                 self.npeek += 1
                 st.events.append(("Peek", n, self.npeek, sp))
                 return [(st, ("peek", n, self.npeek))]
+            if name == "split_at" and len(args) == 2 and a0 == ("bdata",):
+                # (backend.data[..n], backend.data[n..]); panics when n > len, like the index form
+                n = ip.load_ref(st, args[1])
+                self.npeek += 1
+                st.events.append(("Peek", n, self.npeek, sp))
+                return [(st, ("tuple", (("peek", n, self.npeek), ("bdata_from", n))))]
             if sh in ("Index::index", "IndexMut::index_mut") and len(args) == 2:
                 # indexing of other values: keep as projection, may panic
                 base = a0
